@@ -208,6 +208,14 @@ func retryClassify(c *hk.Ctx) {
 		classify("HTTP request failed: "+v, "net-"+k, 0)
 		classify(v, "net-"+k, 0)
 	}
+	// the transports quote the URL in front of the cause: a long URL must not hide the cause
+	long := "http://127.0.0.1:1/" + strings.Repeat("tenant-0123456789/", 30)
+	for _, cause := range []string{"EOF", "read tcp 127.0.0.1:1->127.0.0.1:2: read: connection reset by peer", "dial tcp 127.0.0.1:1: connect: connection refused", "dial tcp: i/o timeout", "unexpected EOF"} {
+		classify(fmt.Sprintf("HTTP request failed: Post %q: %s", long, cause), "net-long-url", 0)
+	}
+	for _, n := range []int{404, 503} {
+		classify(fmt.Sprintf("HTTP request failed: status code %d, body: %s", n, strings.Repeat("x", 600)), "sse-long-body", n)
+	}
 	for _, m := range []string{"EOF", "eof", "unexpected EOF", "read: EOF", "x: EOF", "EOFx", "", "connection refused", "Connection Reset by peer", "dial tcp: i/o timeout",
 		"authentication failed", "context canceled", "context deadline exceeded", "JSON-RPC error -32603: internal", "port 5001 unreachable", "code 500", "code: 500x", "http 5000", "status 50"} {
 		classify(m, "misc", 0)
@@ -234,7 +242,7 @@ func retryClassify(c *hk.Ctx) {
 
 var errSentinel = errors.New("HTTP request failed")
 
-var ctxFlavour int
+var ctxFlavour, e2eRun int
 
 type scriptedOp struct {
 	mu    sync.Mutex
@@ -378,7 +386,19 @@ func runExecuteCase(c *hk.Ctx, cfg *mcp.VerifRetryConfig, script []any, cancelAt
 	ctxFlavour++
 	var ctx context.Context
 	var cancel func()
-	switch ctxFlavour % 3 {
+	if cancelAt == nil && ctxFlavour%2 == 0 {
+		// a caller's deadline far beyond anything the sequence needs: it must not change the sequence
+		c2, cc := context.WithTimeout(context.Background(), 10*time.Minute)
+		ctx, cancel = c2, cc
+	} else {
+		ctx, cancel = flavouredContext(ctxFlavour)
+	}
+	defer cancel()
+	return runExecuteWith(c, cfg, script, cancelAt, op, ctx, cancel)
+}
+
+func flavouredContext(n int) (ctx context.Context, cancel func()) {
+	switch n % 3 {
 	case 0:
 		ctx, cancel = context.WithCancel(context.Background())
 	case 1:
@@ -389,7 +409,14 @@ func runExecuteCase(c *hk.Ctx, cfg *mcp.VerifRetryConfig, script []any, cancelAt
 		c2, cc := context.WithCancel(parent)
 		ctx, cancel = c2, func() { pc(errors.New("application: tenant removed")); cc() }
 	}
-	defer cancel()
+	return
+}
+
+func runExecuteWith(c *hk.Ctx, cfg *mcp.VerifRetryConfig, script []any, cancelAt *int64, op *scriptedOp, ctx context.Context, cancel func()) (r struct {
+	op   map[string]any
+	impl map[string]any
+	nt   bool
+}) {
 	var cj any
 	if cfg != nil {
 		cj = cfgJSON(*cfg)
@@ -423,6 +450,10 @@ func runExecuteCase(c *hk.Ctx, cfg *mcp.VerifRetryConfig, script []any, cancelAt
 			}
 		}
 		result = fmt.Sprintf("opErr:%d", idx)
+		if idx == -1 {
+			c.Violate(hk.Violation{Fingerprint: "retry.execute:foreign-error", What: "Execute returned an error that is neither an error of the operation nor the caller's context error (the context was " + map[bool]string{true: "done", false: "still live"}[ctx.Err() != nil] + ")",
+				Input: map[string]any{"cfg": cj, "script": script, "cancelAt": ca}, Observed: err.Error()})
+		}
 	}
 	gaps := []int64{}
 	for i := 1; i < len(op.times); i++ {
@@ -486,9 +517,10 @@ func retryOverflowReachable(c *hk.Ctx) {
 // retryEndToEnd drives the real Streamable client (WithRetry) against a scripted HTTP server and counts the attempts the
 // server sees for one tools/list call; the model predicts them from the transports' real error texts.
 type e2eStep struct {
-	st   int    // HTTP status of this attempt; 200 = a valid answer; 0 = read the request, then close the connection without answering
-	body string // body of a non-200 answer ("" = "scripted")
-	bare bool   // the status line carries no reason phrase ("HTTP/1.1 503"), as some proxies and embedded servers write it
+	retryAfter string // Retry-After header of a non-200 answer
+	st         int    // HTTP status of this attempt; 200 = a valid answer; 0 = read the request, then close the connection without answering
+	body       string // body of a non-200 answer ("" = "scripted")
+	bare       bool   // the status line carries no reason phrase ("HTTP/1.1 503"), as some proxies and embedded servers write it
 }
 
 func e2eScripts() [][]e2eStep {
@@ -502,6 +534,8 @@ func e2eScripts() [][]e2eStep {
 		}
 		out = append(out, sc)
 	}
+	// a server-chosen Retry-After must not stretch the waits beyond the configured schedule
+	out = append(out, []e2eStep{{st: 503, retryAfter: "2"}, {st: 429, retryAfter: "2"}, {st: 200}})
 	// transient statuses on a status line without reason phrase
 	out = append(out, []e2eStep{{st: 503, bare: true}, {st: 200}}, []e2eStep{{st: 429, bare: true}, {st: 502, bare: true}, {st: 200}}, []e2eStep{{st: 404, bare: true}, {st: 200}})
 	// non-transient 4xx answers whose BODY (chosen by the server / a gateway) mentions transient codes
@@ -529,6 +563,7 @@ func retryEndToEnd(c *hk.Ctx) {
 func runE2E(c *hk.Ctx, kind string, mr int, sc []e2eStep) {
 	var mu sync.Mutex
 	attempts := 0
+	var arrivals []time.Time
 	push := make(chan string, 16) // legacy SSE: answers go out on the event stream
 	answer := func(w http.ResponseWriter, id any, result string) {
 		msg := fmt.Sprintf(`{"jsonrpc":"2.0","id":%v,"result":%s}`, jsonID(id), result)
@@ -553,6 +588,7 @@ func runE2E(c *hk.Ctx, kind string, mr int, sc []e2eStep) {
 			mu.Lock()
 			i := attempts
 			attempts++
+			arrivals = append(arrivals, time.Now())
 			mu.Unlock()
 			step := e2eStep{st: 200}
 			if i < len(sc) {
@@ -579,6 +615,9 @@ func runE2E(c *hk.Ctx, kind string, mr int, sc []e2eStep) {
 					}
 					return
 				}
+				if step.retryAfter != "" {
+					w.Header().Set("Retry-After", step.retryAfter)
+				}
 				http.Error(w, b, step.st)
 			}
 		default:
@@ -586,11 +625,15 @@ func runE2E(c *hk.Ctx, kind string, mr int, sc []e2eStep) {
 		}
 	}
 	if kind == "sse" {
-		mux.HandleFunc("/sse", func(w http.ResponseWriter, r *http.Request) {
+		mux.HandleFunc("/", func(w http.ResponseWriter, r *http.Request) {
+			if r.Method == http.MethodPost {
+				post(w, r)
+				return
+			}
 			w.Header().Set("Content-Type", "text/event-stream")
 			w.WriteHeader(200)
 			fl, _ := w.(http.Flusher)
-			fmt.Fprint(w, "event: endpoint\ndata: /message?sessionId=s1\n\n")
+			fmt.Fprintf(w, "event: endpoint\ndata: %s?sessionId=s1\n\n", strings.TrimSuffix(r.URL.Path, "/sse")+"/message")
 			fl.Flush()
 			for {
 				select {
@@ -602,7 +645,6 @@ func runE2E(c *hk.Ctx, kind string, mr int, sc []e2eStep) {
 				}
 			}
 		})
-		mux.HandleFunc("/message", post)
 	} else {
 		mux.HandleFunc("/", post)
 	}
@@ -610,14 +652,19 @@ func runE2E(c *hk.Ctx, kind string, mr int, sc []e2eStep) {
 	defer srv.Close()
 	opts := []mcp.ClientOption{mcp.WithClientLogger(hk.QuietLogger{}), mcp.WithClientGetSSEEnabled(false)}
 	if mr > 0 {
-		opts = append(opts, mcp.WithRetry(mcp.RetryConfig{MaxRetries: mr, InitialBackoff: time.Millisecond, BackoffFactor: 1, MaxBackoff: time.Millisecond}))
+		opts = append(opts, mcp.WithRetry(mcp.RetryConfig{MaxRetries: mr, InitialBackoff: time.Millisecond, BackoffFactor: 1, MaxBackoff: 3 * time.Second}))
 	}
 	var cl *mcp.Client
 	var err error
+	e2eRun++
+	longPath := ""
+	if e2eRun%3 == 0 {
+		longPath = "/" + strings.Repeat("tenant-0123456789/", 20) // the transports quote the URL in their error texts
+	}
 	if kind == "sse" {
-		cl, err = mcp.NewSSEClient(srv.URL+"/sse", mcp.Implementation{Name: "v", Version: "1"}, opts...)
+		cl, err = mcp.NewSSEClient(srv.URL+longPath+"/sse", mcp.Implementation{Name: "v", Version: "1"}, opts...)
 	} else {
-		cl, err = mcp.NewClient(srv.URL, mcp.Implementation{Name: "v", Version: "1"}, opts...)
+		cl, err = mcp.NewClient(srv.URL+longPath+"/mcp", mcp.Implementation{Name: "v", Version: "1"}, opts...)
 	}
 	if err != nil {
 		return
@@ -662,7 +709,7 @@ func runE2E(c *hk.Ctx, kind string, mr int, sc []e2eStep) {
 	}
 	var cj any
 	if mr > 0 {
-		cj = cfgJSON(mcp.VerifRetryConfig{MaxRetries: mr, InitialBackoff: time.Millisecond, BackoffFactor: 1, MaxBackoff: time.Millisecond})
+		cj = cfgJSON(mcp.VerifRetryConfig{MaxRetries: mr, InitialBackoff: time.Millisecond, BackoffFactor: 1, MaxBackoff: 3 * time.Second})
 	}
 	res := "success"
 	if callErr != nil {
@@ -686,6 +733,15 @@ func runE2E(c *hk.Ctx, kind string, mr int, sc []e2eStep) {
 				Input: map[string]any{"max_retries": mr, "script": sts}, Observed: map[string]any{"attempts_seen_by_server": seen}})
 		}
 	}
+	mu.Lock()
+	for i := 1; i < len(arrivals); i++ {
+		if g := arrivals[i].Sub(arrivals[i-1]); g > 900*time.Millisecond {
+			c.Violate(hk.Violation{Fingerprint: pre + ":wait-longer-than-schedule", What: "with a 1 ms back-off schedule two attempts of the " + name + " client were " + g.Round(time.Millisecond).String() + " apart (the k-th wait is InitialBackoff x Factor^(k-1) capped at MaxBackoff, whatever the server says)",
+				Input: map[string]any{"max_retries": mr, "script": sts}, Observed: g.String()})
+			break
+		}
+	}
+	mu.Unlock()
 	if seen > mr+1 {
 		c.Violate(hk.Violation{Fingerprint: pre + ":too-many-attempts", What: "more than MaxRetries+1 copies of one request reached the server (" + name + " client)", Input: map[string]any{"max_retries": mr, "script": sts}, Observed: seen})
 	}
